@@ -588,7 +588,7 @@ func TestC09(t *testing.T) {
 		Thorough:  1500,
 		MaxRounds: 3,
 		Extra: func() map[string]any {
-			var ns []string
+			ns := []string{}
 			for k, n := range notes {
 				ns = append(ns, fmt.Sprintf("%s (x%d)", k, n))
 			}
